@@ -98,10 +98,15 @@
 #   The loop identities C1 / C2, the flip laws of C3 / C7 and the shape facts used by the invariance test of C1 are THEOREMS:
 #        Proofs/SrcEqCanon.v (pinned for C11: counter_up_while_is_for_ret, counter_up_while_is_for, counter_up1_while_is_for,
 #        counter_down_while_is_for_rev, countdown_for_is_for_rev, conditional_orientation, negation_normal_form, element_writes_keep_shape).
+#   (C9) loops over the elements of a list are index loops (the rewrite clippy's needless_range_loop suggests, backwards):
+#        `for x in E.iter() | E.iter_mut() | &E | &mut E`, `for (i, x) in E.iter().enumerate()`, `for (a, b) in E.iter().zip(F.iter())`
+#        become `for k in 0..E.len()` (resp. `0..min(E.len(), F.len())`) with the element variables replaced by E[k] (F[k]); see iter_for.
+#        The element variable is a reference into E; while the iterator lives the borrow rules exclude every other access that
+#        could change E, element writes keep the length, so E[k] with k < E.len() is in range and is the element the iterator yields.
 # Not canonicalised on purpose (they remain noise, see the findings file): statement order, `while i != H`, hoisting / inlining of
 # FALLIBLE reads and calls (they change the evaluation order or the number of possible panics, which only a proof can discharge),
-# changes of the loop structure (re-indexing, flattening, rolling locals instead of a table), iterator adaptors (zip / enumerate /
-# iter_mut), `match` on integers.
+# changes of the loop structure (re-indexing, flattening, rolling locals instead of a table), iterators over slices / other
+# adaptors (skip, rev after iter, chunks), tuple patterns over drain(..), `match` on integers.
 import re
 try:
     from translate import TieBroken
@@ -1815,6 +1820,8 @@ class Translator:
     def for_stmt(self, s, env, rest, after=None, site=None):
         """site: the statement of the source this loop stands for, when s is a canonicalised copy (state_order)"""
         pat, it, body = s[1], strip(s[2]), s[3]
+        cf = self.iter_for(pat, s[2], body, env)
+        if cf is not None: return self.for_stmt(cf, env, rest, after, site if site is not None else s)
         if pat[0] != "pvar": self.bad("`for` with a tuple pattern")
         cd = self.countdown_for(pat, it, body, env)
         if cd is not None: return self.for_stmt(cd, env, rest, after, site if site is not None else s)
@@ -1969,6 +1976,66 @@ class Translator:
         out = []
         self.dry(lambda: out.append(self.ex(e, env, [])[1]))
         return out[0]
+
+    def iter_for(self, pat, it, body, env):
+        """(C9) loops over the elements of a list are index loops:
+             for x in E.iter() | E.iter_mut() | &E | &mut E   { BODY }   ==>  for k in 0..E.len() { BODY[x := E[k]] }
+             for (i, x) in E.iter().enumerate()               { BODY }   ==>  for i in 0..E.len() { BODY[x := E[i]] }
+             for (a, b) in E.iter().zip(F.iter())             { BODY }   ==>  for k in 0..min(E.len(), F.len()) { BODY[a := E[k], b := F[k]] }
+           E, F places (a variable or a field chain) of a list type.  The element variable is a reference into E: `*x`, `x.m()`,
+           `x.clone()` read E[k], `*x = v` / `*x op= v` (iter_mut) write E[k]; while the iterator is alive the borrow rules forbid
+           any other access to E that could change it (iter) resp. any other access at all (iter_mut), and an element write keeps
+           the length, so the index reads and writes E[k], k < E.len(), are in range.  None when the loop is not of this shape."""
+        def src_of(e):
+            e = unparen(e)
+            if e[0] == "mcall" and e[2] in ("iter", "iter_mut") and not e[3]: p = strip(e[1])
+            elif e[0] == "un" and e[1] in ("&", "&mut"): p = strip(e[2])
+            else: return None
+            q = p
+            while q[0] == "field": q = strip(q[1])
+            if q[0] != "var" or env.lookup(q[1]) is None: return None
+            ty = self.type_of(p, env)
+            if not (isinstance(ty, str) and ty in LISTS): return None
+            m = "len" if (ty, "len", 0) in self.tb.METHODS or (ty, "len", 0) in self.spec.get("methods", {}) else "size"
+            return p, ("mcall", p, m, [])
+        e = unparen(it)
+        elems = []                                  # (element variable, source place)
+        if pat[0] == "pvar":
+            a = src_of(e)
+            if a is None: return None
+            k = pat[1] + "__k"; elems.append((pat[1], a[0])); bound = a[1]
+        elif pat[0] == "ptuple" and len(pat[1]) == 2 and all(q[0] == "pvar" for q in pat[1]):
+            if e[0] == "mcall" and e[2] == "enumerate" and not e[3]:
+                a = src_of(e[1])
+                if a is None: return None
+                k = pat[1][0][1]; elems.append((pat[1][1][1], a[0])); bound = a[1]
+            elif e[0] == "mcall" and e[2] == "zip" and len(e[3]) == 1:
+                a, b = src_of(e[1]), src_of(e[3][0])
+                if a is None or b is None: return None
+                k = pat[1][0][1] + "__k"; elems += [(pat[1][0][1], a[0]), (pat[1][1][1], b[0])]
+                bound = ("call", ("path", ["std", "cmp", "min"]), [a[1], b[1]])
+            else: return None
+        else: return None
+        names = [x for x, _ in elems]
+        if k in names or len(set(names)) != len(names): return None
+        if k.endswith("__k") and mentions(body, k): return None          # the index variable we introduce must be fresh
+        def rebinds(n):
+            if isinstance(n, tuple):
+                if n and n[0] == "pvar" and len(n) == 3 and n[1] in names: return True
+                return any(rebinds(x) for x in n)
+            if isinstance(n, list): return any(rebinds(x) for x in n)
+            return False
+        if rebinds(body): return None
+        def subst(n):
+            if isinstance(n, tuple):
+                if n and n[0] == "var" and len(n) == 2:
+                    for x, src in elems:
+                        if n[1] == x: return ("index", src, ("var", k))
+                    return n
+                return tuple(subst(x) for x in n)
+            if isinstance(n, list): return [subst(x) for x in n]
+            return n
+        return ("for", ("pvar", k, False), ("range", ("num", "0"), bound, False), subst(body))
 
     def countdown_for(self, pat, it, body, env):
         """for K in 0..N { let I = N - 1 - K; BODY }   ==>   for I in (0..N).rev() { BODY }
